@@ -53,9 +53,6 @@ KNOWN = [
  ("OBS-oneshot", "C04", r"^oneshot:try_recv:(empty-after-all-senders-gone|not-disconnected-after-disconnected)$",
   "findings/C04_OBS_oneshot_recv_after_taken.case",
   "oneshot after the value was taken: try_recv reports Empty (state TAKEN) although every sender is gone"),
- ("MON-mu-async-batch0", "C04", r"^mpsc_u_async:recv_batch(_mut)?:disconnected-before-drain$",
-  "findings/C04_OBS_oneshot_recv_after_taken.case",
-  "mpsc unbounded async recv_batch(0) on a receiver that was itself closed checks the own flag before n==0 and reports Disconnected (correct rejection of a closed handle; the monitor's drain test does not know the handle is closed)"),
  ("SpmcB-N1", "C03", r"^spmc(_async)?:len:exceeds-capacity$",
   "findings/SpmcB_stale_clone.case",
   "spmc Receiver::clone of a closed (unregistered) receiver registers a cursor cell with the parent's stale cursor: head - min(cursor) exceeds the capacity (len() > capacity()), see SpmcB-N1 / C07"),
